@@ -45,6 +45,10 @@ def gen(rng, tier, index):
         dt = float(10 ** rng.uniform(-2.5, -1.5))
         steps = int(rng.integers(10, 40))
     solver = gen_solver(rng, name, steps, dt, contacts=False)
+    if name in ("Rattle", "BackwardEuler") and rng.random() < 0.2:
+        # legal knob: a Newton budget so small that some step organically fails; whatever the solver then
+        # returns must still consist of steps that satisfy the constraints
+        solver["options"]["newton_max_iter"] = int(rng.integers(1, 4))
     return {"scene": scene, "solver": solver}
 
 
@@ -188,11 +192,21 @@ def execute(plan, out, log):
         R = run_solver(B, spec, sim)
     if R.exc is not None:
         raise Discard(f"solver_raised:{spec['name']}:{type(R.exc).__name__}")
-    if sim.failed_instances():
-        raise Discard(f"organic_nonconvergence:{spec['name']}")
     sol = R.sol
-    if len(sol.t) < spec["steps"] + 1:
-        raise Discard(f"truncated:{spec['name']}")
+    failed = [f for f in sim.failed_instances() if f[1] >= 1]
+    if failed:
+        kf = min(f[1] for f in failed)
+        if len(sol.t) > kf:
+            # the solver kept a step although an iteration of that step failed: it is a stored step like any other
+            out["probes"]["stored_step_after_failed_iteration"] += 1
+        else:
+            out["probes"]["truncated_before_failed_step"] += 1
+        if len(sol.t) < 2:
+            raise Discard(f"organic_nonconvergence_at_first_step:{spec['name']}")
+    elif len(sol.t) < spec["steps"] + 1:
+        if len(sol.t) < 2:
+            raise Discard(f"truncated:{spec['name']}")
+        out["probes"]["truncated_by_back_end"] += 1
     if not (np.all(np.isfinite(sol.q)) and np.all(np.isfinite(sol.u))):
         raise Discard(f"nonfinite:{spec['name']}")
     out["steps"] = len(sol.t) - 1
